@@ -388,14 +388,18 @@ func mapValueRequiredOnly(d *dg.Design, a *dg.Attr, path string) bool {
 		return false
 	}
 	as := attrsAlong(d, a, path)
+	underMap := false // below a map key / value with no user type in between (goa validates there with Pointer=false)
 	for i := 0; i+1 < len(as); i++ {
 		bt, _ := d.Effective(as[i])
-		if bt.Kind == "map" {
-			for _, ch := range []*dg.Attr{bt.Key, bt.Elem} {
-				if ch == as[i+1] && ch.T.Kind == "user" && !generatesOutsidePointerCtx(d, ch, map[string]bool{}) {
-					return true
-				}
-			}
+		switch {
+		case as[i].T.Kind == "user" && bt.Kind == "object":
+			underMap = false
+		case bt.Kind == "map":
+			underMap = true
+		}
+		ch := as[i+1]
+		if underMap && ch.T.Kind == "user" && (bt.Kind == "map" || bt.Kind == "array") && !generatesOutsidePointerCtx(d, ch, map[string]bool{}) {
+			return true
 		}
 	}
 	return false
